@@ -32,7 +32,7 @@ class Noise(np.ndarray):
 
 class Recorder:
     def __init__(self, mode, seed, prior=None):
-        self.mode, self.prior = mode, prior
+        self.mode, self.prior, self.seed = mode, prior, seed
         self.events = []
         self.rs = np.random.RandomState(seed)
         self.diverged = None
@@ -179,7 +179,9 @@ def neighbour(rng, data, bounded):
     i = rng.randrange(df.shape[0])
     if bounded:
         for a, s in zip(data.domain.attrs, data.domain.shape):
-            df.loc[df.index[i], a] = rng.randrange(s)
+            old = int(df.loc[df.index[i], a])
+            # the replacement differs in every attribute that has another value: every marginal then moves by the full L1 = 2 / L2 = sqrt 2
+            df.loc[df.index[i], a] = rng.choice([v for v in range(s) if v != old]) if s >= 2 else old
         return Dataset(df.reset_index(drop=True), data.domain), 'replace record %d' % i
     return Dataset(df.drop(df.index[i]).reset_index(drop=True), data.domain), 'remove record %d' % i
 
@@ -207,7 +209,10 @@ def run_mechanism(name, params, data):
                             noise=params['noise'], bounded=params['bounded'])
     if name == 'adagrid':
         mod = importlib.import_module('adaptive_grid')
-        return mod.adagrid(data, params['epsilon'], params['delta'], params['threshold'], targets=params.get('targets', []), iters=15)
+        kw = {}
+        if params.get('split') is not None:
+            kw['split_strategy'] = list(params['split'])
+        return mod.adagrid(data, params['epsilon'], params['delta'], params['threshold'], targets=params.get('targets', []), iters=15, **kw)
     raise KeyError(name)
 
 
@@ -223,8 +228,30 @@ def gen_params(rng, name, names):
     elif name == 'mwem':
         p.update(workload=pairs + ([pairs[0]] if rng.random() < 0.2 else []), rounds=rng.choice([1, 2, 3]), noise=rng.choice(['gaussian', 'gaussian', 'laplace', 'Laplace']), bounded=rng.random() < 0.5)
     elif name == 'adagrid':
-        p.update(threshold=rng.choice([3.0, 5.0]), targets=([names[-1]] if len(names) >= 3 and rng.random() < 0.4 else []))
+        p.update(threshold=rng.choice([3.0, 5.0]), targets=([names[-1]] if len(names) >= 3 and rng.random() < 0.4 else []),
+                 split=rng.choice([None, None, [0.1, 0.1, 0.8], [1, 1, 2], [0.2, 0.3, 0.5]]))
     return p
+
+
+def far_dataset(rng, data):
+    from mbi import Dataset
+    df = data.df.copy()
+    for a, sz in zip(data.domain.attrs, data.domain.shape):
+        df[a] = [rng.randrange(sz) for _ in range(df.shape[0])]
+    return Dataset(df.reset_index(drop=True), data.domain)
+
+
+def forced_run(name, params, data, seed, prior, bounded):
+    rec = Recorder('replay', seed, prior=prior)
+    rec.true_l1_sens = 2.0 if bounded else 1.0
+    np.random.seed(seed)
+    err = None
+    with patched(rec):
+        try:
+            run_mechanism(name, params, data)
+        except Exception as e:
+            err = '%s: %s' % (type(e).__name__, str(e)[:150])
+    return rec, err
 
 
 def pair_of_runs(rng, name, params, data, seed):
